@@ -673,6 +673,14 @@ def check_var_res(c, res):
     for r in res:
         if other_fields(W.dump(r)) != of:
             return f'a form changed residues or other fields: {W.dump(r)}'
+    # the statement of Props/C13Ext.lean `variable_max_mods_bound`, on the implementation, in every mode: at most
+    # max_mods modified residues (dict keys) more than the input
+    if c['max_mods'] >= 0:
+        n0 = len(fields_of(a)[2])
+        for r in res:
+            if len(fields_of(r)[2]) > n0 + c['max_mods']:
+                return (f'{len(fields_of(r)[2])} modified residues in a returned form, the input has {n0}, '
+                        f'max_mods={c["max_mods"]}: {W.dump(r)}')
     keys = [form_key(r) for r in res]
     got = Counter(keys)
     if form_key(a) not in got:
@@ -1026,7 +1034,7 @@ def run(chk):
     import peptacular as pt  # noqa
     tier = chk.tier
     rng = chk.rng
-    chk.lean_build(['PeptVerif.Props.C13'], DRV)
+    chk.lean_build(['PeptVerif.Props.C13', 'PeptVerif.Props.C13Ext'], DRV)
     chk.trusted += [
         'the regex engine is outside the Lean model: every rule enters the model as the site list computed by the implementation '
         '(get_regex_match_indices(sequence, rule, offset=-1)); the site finder is compared with an independent reading of each of the '
@@ -1277,7 +1285,7 @@ def run(chk):
 
     if not quick:
         chk.leanchecker(['PeptVerif.Model.ModBuilder', 'PeptVerif.Model.ModBuilderRegex', 'PeptVerif.Spec.ModBuilder',
-                         'PeptVerif.Lemmas.ModBuilder', 'PeptVerif.Lemmas.ModBuilderRegex', 'PeptVerif.Props.C13'])
+                         'PeptVerif.Lemmas.ModBuilder', 'PeptVerif.Lemmas.ModBuilderRegex', 'PeptVerif.Props.C13', 'PeptVerif.Props.C13Ext'])
     return chk.finish(classify)
 
 
